@@ -290,7 +290,12 @@ func (state inSession) processReject(session *session, msg *Message, rej Message
 	case targetTooHigh:
 
 		var nextState resendState
-		switch currentState := session.State.(type) {
+		currentState := session.State
+		if pending, ok := currentState.(pendingTimeout); ok {
+			// A test request is pending: the state it interrupted decides.
+			currentState = pending.sessionState
+		}
+		switch currentState := currentState.(type) {
 		case resendState:
 			// Assumes target too high reject already sent.
 			nextState = currentState
